@@ -164,9 +164,17 @@ def fmt_code(tok, raw=None):
     return str(tok) + ('' if raw is None else f'!{int(raw)}')
 
 
+def hdr_src(cls, h):
+    """class of the supplied header object (the image's own class unless `from` says otherwise)"""
+    return cls if h is None else (h.get('from') or cls)
+
+
 def fmt_hdr(cls, h):
     if h is None:
         return '-'
+    src = hdr_src(cls, h)
+    if src != cls:
+        return src + '@' + fmt_hdr(src, {k: v for k, v in h.items() if k != 'from'})
     if cls in NIFTI:
         raw = h.get('raw') or {}
 
@@ -179,16 +187,22 @@ def fmt_hdr(cls, h):
     return 'z=' + ','.join(fr(v) for v in h['z']) + ';o=' + ','.join(str(int(v)) for v in h['o'])
 
 
-def mk_rt(cls, shape, a12, hdr=None, mat='both', stream='exact', exact=True, line=True):
+def mk_rt(cls, shape, a12, hdr=None, mat='both', stream='exact', exact=True, line=True, fl='TTT', flhow='sub'):
+    """fl: header.default_x_flip (T/F) at construction, at save, on the loading class; flhow: how a non-default
+    flag is brought about ('sub' = header/image subclasses + instance attribute, 'patch' = class attribute)"""
     a12 = [float(v) for v in a12]
+    if cls == 'MGH':
+        fl = 'TTT'
     data = {'op': 'rt', 'cls': cls, 'shape': [int(s) for s in shape], 'A': a12, 'hdr': hdr, 'mat': mat,
-            'stream': stream, 'exact': bool(exact), 'line': bool(line)}
+            'stream': stream, 'exact': bool(exact), 'line': bool(line), 'fl': fl, 'flhow': flhow}
     ln = None
-    if line:
+    # the NIfTI flows are modelled for the default flag only
+    if line and not (cls in NIFTI and fl != 'TTT'):
         ln = f'C04 rt {cls} ' + ','.join(str(int(s)) for s in shape) + ' ' + fmt_aff12(a12) + ' ' + \
-             fmt_hdr(cls, hdr) + ' ' + mat
+             fmt_hdr(cls, hdr) + ' ' + mat + ' ' + fl
     ident = a12 == [1.0, 0, 0, 0, 0, 1.0, 0, 0, 0, 0, 1.0, 0]
-    key = None if ident else (cls, tuple(shape), tuple(a12), fmt_hdr(cls, hdr), mat)
+    end = '' if hdr is None else hdr.get('end', '')
+    key = None if ident else (cls, tuple(shape), tuple(a12), fmt_hdr(cls, hdr) + end, mat, fl, flhow)
     return Case(ln, data, key, stream)
 
 
@@ -215,20 +229,38 @@ def mk_comp(op, args, stream, line=True):
 def case_from_data(d):
     if d['op'] == 'rt':
         return mk_rt(d['cls'], d['shape'], d['A'], d.get('hdr'), d.get('mat', 'both'), d.get('stream', 'exact'),
-                     d.get('exact', False), d.get('line', False))
+                     d.get('exact', False), d.get('line', False), d.get('fl', 'TTT'), d.get('flhow', 'sub'))
     return mk_comp(d['op'], d['args'], d.get('stream', d['op']), d.get('line', True))
 
 
 # ------------------------------------------------------------------ implementation side
 
-def build_header(cls, shape, h):
-    """the header object handed to the image constructor (None = no header)"""
+_SUB = {}
+
+
+def flip_class(cls, flip):
+    """the image class whose header class has default_x_flip = flip (a subclass pair when flip is False)"""
     K = _nib()[cls]
+    if flip or cls == 'MGH':
+        return K
+    if cls not in _SUB:
+        H = type('Neuro' + K.header_class.__name__, (K.header_class,), {'default_x_flip': False})
+        _SUB[cls] = type('Neuro' + K.__name__, (K,), {'header_class': H})
+    return _SUB[cls]
+
+
+def build_header(cls, shape, h, K=None):
+    """the header object handed to the image constructor (None = no header); `from` = class it is made on,
+    `end` = its byte order"""
     if h is None:
         return None
+    src = hdr_src(cls, h)
+    if K is None or src != cls:
+        K = _nib()[src]
+    cls = src
     if cls == 'MGH':
         return K(np.zeros(shape, dtype=np.int16), mat_of(h['a'])).header
-    hdr = K.header_class()
+    hdr = K.header_class(endianness=h['end']) if h.get('end') else K.header_class()
     hdr.set_data_shape(shape)
     hdr.set_data_dtype(np.int16)
     if cls in NIFTI:
@@ -249,27 +281,76 @@ def build_header(cls, shape, h):
     return hdr
 
 
-def roundtrip(cls, shape, A, hdr, mat):
-    import nibabel as nib
-    K = _nib()[cls]
-    img = K(np.zeros(shape, dtype=np.int16), A, hdr)
-    fm = K.make_file_map()
-    for k in fm:
-        fm[k].fileobj = io.BytesIO()
-    img.to_file_map(fm)
-    if cls in SPM and mat != 'both':
-        if mat == 'none':
-            fm['mat'].fileobj = io.BytesIO()
-        else:
-            import scipy.io as sio
-            fm['mat'].fileobj.seek(0)
-            mats = sio.loadmat(io.BytesIO(fm['mat'].fileobj.read()))
-            out = io.BytesIO()
-            sio.savemat(out, {'M': mats['M']}, format='4')
-            fm['mat'].fileobj = out
-    for k in fm:
-        fm[k].fileobj.seek(0)
-    return K.from_file_map(fm)
+class _patched_flip:
+    """`HeaderClass.default_x_flip = False` as a class attribute for the duration of one round trip"""
+
+    def __init__(self, H, on):
+        self.H, self.on = H, on
+
+    def __enter__(self):
+        if self.on:
+            self.had = 'default_x_flip' in self.H.__dict__
+            self.old = self.H.__dict__.get('default_x_flip')
+            self.H.default_x_flip = False
+
+    def __exit__(self, *a):
+        if self.on:
+            if self.had:
+                self.H.default_x_flip = self.old
+            else:
+                del self.H.default_x_flip
+
+
+def flips_of(d):
+    return tuple(c == 'T' for c in d.get('fl', 'TTT'))
+
+
+def roundtrip(cls, shape, A, hspec, mat, fl=(True, True, True), flhow='sub', ex=None):
+    fi, fs, fload = fl
+    patch = flhow == 'patch' and fl == (False, False, False) and cls != 'MGH'
+    Ki = flip_class(cls, fi or patch)
+    Kl = flip_class(cls, fload or patch)
+    with _patched_flip(_nib()[cls].header_class, patch):
+        hdr = build_header(cls, shape, hspec, Ki)
+        if hdr is not None and ex is not None:
+            # the supplied header as the image class sees it (converted when of another class), and its affine
+            # under the flag in force at construction / save / load
+            seen = Ki.header_class.from_header(hdr)
+            seen.set_data_shape(shape)
+            ex['hdr_best_f'] = {}
+            for f in (True, False):
+                if cls != 'MGH':
+                    seen.default_x_flip = f
+                ex['hdr_best_f'][f] = np.array(seen.get_best_affine(), dtype=np.float64)
+            ex['hdr_best'] = ex['hdr_best_f'][fi]
+        img = Ki(np.zeros(shape, dtype=np.int16), A, hdr)
+        if fs != fi:
+            img.header.default_x_flip = fs          # instance attribute set between construction and save
+        fm = Ki.make_file_map()
+        for k in fm:
+            fm[k].fileobj = io.BytesIO()
+        img.to_file_map(fm)
+        if cls in SPM and mat != 'both':
+            if mat == 'none':
+                fm['mat'].fileobj = io.BytesIO()
+            else:
+                import scipy.io as sio
+                fm['mat'].fileobj.seek(0)
+                mats = sio.loadmat(io.BytesIO(fm['mat'].fileobj.read()))
+                out = io.BytesIO()
+                if mat == 'monly':
+                    sio.savemat(out, {'M': mats['M']}, format='4')
+                elif mat == 'matonly':
+                    sio.savemat(out, {'mat': mats['mat']}, format='4')
+                elif mat == 'mat3d':
+                    stack = np.stack([mats['mat'], mats['mat'] * 2.0 + 1.0], axis=2)
+                    sio.savemat(out, {'mat': stack, 'M': mats['M']}, format='5')
+                else:
+                    raise ValueError(mat)
+                fm['mat'].fileobj = out
+        for k in fm:
+            fm[k].fileobj.seek(0)
+        return Kl.from_file_map(fm)
 
 
 def show_arr(a):
@@ -351,21 +432,25 @@ def impl_rt(case):
     cls, shape, A = d['cls'], tuple(d['shape']), mat_of(d['A'])
     ex = {}
     case.extra = ex
+    hdr = d['hdr']
     try:
-        hdr = build_header(cls, shape, d['hdr'])
-        if hdr is not None:
-            ex['hdr_best'] = np.array(hdr.get_best_affine(), dtype=np.float64)
-        img = roundtrip(cls, shape, A, hdr, d['mat'])
+        with warnings.catch_warnings():
+            warnings.simplefilter('ignore')
+            img = roundtrip(cls, shape, A, hdr, d['mat'], flips_of(d), d.get('flhow', 'sub'), ex)
     except Exception as e:
         ex['err'] = repr(e)
         return errname(e)
     L = np.array(img.affine, dtype=np.float64)
     ex['aff'] = L
     h = img.header
-    if hdr is None and cls not in NIFTI:
+    if cls not in NIFTI and (hdr is None or (cls == 'MGH' and hdr_src(cls, hdr) != 'MGH')):
         dh = _nib()[cls].header_class()
         dh.set_data_shape(shape)
-        ex['default_aff'] = np.array(dh.get_best_affine(), dtype=np.float64)
+        ex['default_aff_f'] = {}
+        for f in (True, False):
+            if cls != 'MGH':
+                dh.default_x_flip = f
+            ex['default_aff_f'][f] = np.array(dh.get_best_affine(), dtype=np.float64)
         ex['loaded_hdr_aff'] = np.array(h.get_best_affine(), dtype=np.float64)
     out = 'aff=' + show_aff(L)
     if cls in NIFTI:
@@ -574,6 +659,8 @@ def spec_differs(d):
     h, cls = d['hdr'], d['cls']
     if h is None:
         return False
+    if hdr_src(cls, h) != cls:
+        return True      # a header of another class: what it holds after conversion is compared by the caller
     if cls in NIFTI:
         (qc, qa), (sc, sa) = h['q'], h['s']
         raw = h.get('raw') or {}
@@ -598,9 +685,12 @@ def oracle_rt(case, out):
     cls, shape, A = d['cls'], tuple(d['shape']), mat_of(d['A'])
     ex = case.extra or {}
     bad_codes, raw_invalid = [], False
-    if cls in NIFTI and d['hdr'] is not None:
-        bad_codes = [t[0] for t in (d['hdr']['q'], d['hdr']['s']) if std_code(t[0]) is None]
-        raw_invalid = any(v is not None and v not in STD_XFORM for v in (d['hdr'].get('raw') or {}).values())
+    src = hdr_src(cls, d['hdr'])
+    fi, fs, fload = flips_of(d)
+    nhdr = d['hdr'] if (d['hdr'] is not None and src in NIFTI) else None      # a NIfTI-type header was supplied
+    if nhdr is not None:
+        bad_codes = [t[0] for t in (nhdr['q'], nhdr['s']) if std_code(t[0]) is None]
+        raw_invalid = any(v is not None and v not in STD_XFORM for v in (nhdr.get('raw') or {}).values())
     if out.startswith('ERR'):
         err = ex.get('err', '')
         sig = 'raises'
@@ -613,10 +703,10 @@ def oracle_rt(case, out):
         return None              # damaged code field: what the loader makes of it is compared with the model only
     L = ex['aff']
     HB = ex.get('hdr_best')
-    s_spec = d['hdr']['s'] if (cls in NIFTI and d['hdr'] is not None) else None
+    s_spec = nhdr['s'] if (cls in NIFTI and nhdr is not None) else None
     s_holds_A = s_spec is not None and std_code(s_spec[0]) != 0 and s_spec[1] is not None \
         and list(s_spec[1]) == list(d['A']) and (d['hdr'].get('raw') or {}).get('s') is None
-    if cls in NIFTI and d['hdr'] is not None and HB is not None and (np.array_equal(HB, A) or s_holds_A):
+    if cls in NIFTI and nhdr is not None and HB is not None and (np.array_equal(HB, A) or s_holds_A):
         # the supplied header already holds the image affine: it is kept, and every VALID code the user set
         # (0..5 of the NIfTI-1 standard, by number or by name) must come back from the file
         raw = d['hdr'].get('raw') or {}
@@ -628,16 +718,18 @@ def oracle_rt(case, out):
                        f'{d["hdr"]["q"][0]!r}) reloads with {ex["sc"]}/{ex["qc"]}')
 
     def classify(msg, default):
-        # finding (i): a header was supplied whose affine is allclose-but-not-equal to the image affine and the
-        # reloaded affine equals the header's
-        if d['hdr'] is not None and HB is not None and spec_differs(d) and np.allclose(A, HB) \
-                and not np.array_equal(A, HB) and np.array_equal(L, HB):
+        # finding (i): a header was supplied whose affine (as the image class sees it, under the x-flip flag in
+        # force at construction and at save) is allclose-but-not-equal to the image affine and the reloaded
+        # affine equals the header's (under the loading flag)
+        HF = ex.get('hdr_best_f')
+        if d['hdr'] is not None and HF is not None and spec_differs(d) and np.allclose(A, HF[fi]) \
+                and np.allclose(A, HF[fs]) and not np.array_equal(A, HF[fi]) and np.array_equal(L, HF[fload]):
             return tag(SIG_ALLCLOSE, msg + ' [header affine kept: allclose to, but different from, the image affine]')
         # variant without a supplied header: the class's DEFAULT header affine for this shape is allclose to, but
         # different from, the image affine, and is what the file holds
-        D = ex.get('default_aff')
-        if d['hdr'] is None and cls not in NIFTI and D is not None and np.allclose(A, D) \
-                and not np.array_equal(A, D) and np.array_equal(ex.get('loaded_hdr_aff'), D):
+        DF = ex.get('default_aff_f')
+        if cls not in NIFTI and DF is not None and np.allclose(A, DF[fi]) and np.allclose(A, DF[fs]) \
+                and not np.array_equal(A, DF[fi]) and np.array_equal(ex.get('loaded_hdr_aff'), DF[fload]):
             return tag(SIG_DEFAULT, msg + ' [default header kept: its affine is allclose to, but different from, '
                                           'the image affine]')
         return tag(default, msg)
@@ -666,12 +758,19 @@ def oracle_rt(case, out):
                             'nifti:fallback-value')
         return None
     if cls in SPM and d['mat'] != 'none':
-        if np.array_equal(L, A):
+        W = A
+        if d['mat'] == 'monly' and fs != fload:
+            # a file with 'M' only ("does not include flips") written under one x-flip convention and read under
+            # the other: the x row comes back negated — the one configuration that is not an identity
+            W = A.copy()
+            W[0, :] = -W[0, :]
+        if np.array_equal(L, W):
             return None
-        if not d.get('exact') and spm_ulp_class(A, L):
+        if not d.get('exact') and spm_ulp_class(W, L):
             return tag(SIG_SPM, f'{cls}+mat: reloaded translation {[float(v) for v in L[:3, 3]]} != input '
-                                f'{[float(v) for v in A[:3, 3]]} (within 4 ulps of |t|+sum|col|)')
-        return tag('spm-mat:value', f'{cls}+mat ({d["mat"]}): reloaded affine {aff12_of(L)} != input {aff12_of(A)}')
+                                f'{[float(v) for v in W[:3, 3]]} (within 4 ulps of |t|+sum|col|)')
+        return tag('spm-mat:value', f'{cls}+mat ({d["mat"]}, default_x_flip {d.get("fl", "TTT")}): reloaded affine '
+                                    f'{aff12_of(L)} != input {aff12_of(W)}')
     if cls == 'MGH':
         bad = check_mgh_fields(A, shape, ex)
         return classify(f'MGH: {bad}', 'mgh:precision') if bad else None
@@ -775,12 +874,14 @@ def shrink_candidates(case):
     if d['mat'] != 'both' and d['cls'] in SPM:
         pass
     if len(d['shape']) != 3 and d['cls'] != 'MGH':
-        yield mk_rt(d['cls'], (d['shape'] + [2, 2, 2])[:3], A, d['hdr'], d['mat'], d['stream'], d['exact'], d['line'])
+        yield mk_rt(d['cls'], (d['shape'] + [2, 2, 2])[:3], A, d['hdr'], d['mat'], d['stream'], d['exact'], d['line'],
+                    d.get('fl', 'TTT'), d.get('flhow', 'sub'))
     for k in (3, 7, 11):
         if A[k] != 0:
             B = list(A)
             B[k] = 0.0
-            yield mk_rt(d['cls'], d['shape'], B, d['hdr'], d['mat'], d['stream'], d['exact'], d['line'])
+            yield mk_rt(d['cls'], d['shape'], B, d['hdr'], d['mat'], d['stream'], d['exact'], d['line'],
+                        d.get('fl', 'TTT'), d.get('flhow', 'sub'))
 
 
 # ------------------------------------------------------------------ generators
@@ -849,9 +950,20 @@ def exact_affine(rng, rots=None, sheared=False):
 
 def near_affine(rng, A):
     """allclose to A, different from A, float32-exact: one column scaled by 1+2^-18, or a zero entry of the
-    translation set to 2^-30, or a big translation moved by 2^-8"""
+    translation set to 2^-30, or a big translation moved by 2^-8; or right INSIDE the np.allclose boundary
+    (rtol 1e-5: relative 2^-17 = 7.6e-6; atol 1e-8: 2^-27 = 7.5e-9 against a zero entry)"""
     B = A.copy()
     r = rng.random()
+    if r < 0.12:
+        j = rng.randrange(3)
+        B[:3, j] *= (1 + 2.0 ** -17)
+        return B
+    if r < 0.2:
+        zs = [(i, j) for i in range(3) for j in range(4) if B[i, j] == 0]
+        if zs:
+            i, j = rng.choice(zs)
+            B[i, j] = rng.choice([1, -1]) * 2.0 ** -27
+            return B
     if r < 0.6:
         j = rng.randrange(3)
         B[:3, j] *= (1 + 2.0 ** -18)
@@ -869,8 +981,18 @@ def near_affine(rng, A):
 
 
 def far_affine(rng, A, rots=None):
+    """not allclose to A; 30% right OUTSIDE the np.allclose boundary (relative 2^-16 = 1.5e-5 on a column; 2^-26 =
+    1.5e-8 against a zero translation entry: the matrix part stays a scaled signed permutation)"""
     B = A.copy()
     r = rng.random()
+    if r < 0.2:
+        B[:3, rng.randrange(3)] *= (1 + 2.0 ** -16)
+        return B
+    if r < 0.3:
+        zs = [i for i in range(3) if B[i, 3] == 0]
+        if zs:
+            B[rng.choice(zs), 3] = rng.choice([1, -1]) * 2.0 ** -26
+            return B
     if r < 0.4:
         B[:3, rng.randrange(3)] *= 2.0
     elif r < 0.6:
@@ -903,6 +1025,89 @@ def variant(rng, A, rots=None):
     if r < 0.65:
         return near_affine(rng, A), 'near'
     return far_affine(rng, A, rots), 'far'
+
+
+def rand_flips(rng, p=0.4):
+    """(fl, flhow): default_x_flip at construction / save / load.  Mostly the realistic ones: instance attribute set
+    on img.header before saving (TFT), header subclass or class attribute for everything (FFF), saved under one
+    convention and loaded under the other (FFT, TTF)"""
+    if rng.random() >= p:
+        return 'TTT', 'sub'
+    fl = rng.choice(['TFT', 'TFT', 'FFF', 'FFF', 'FFF', 'FFT', 'TTF', 'TFF', 'FTT', 'FTF'])
+    return fl, ('patch' if fl == 'FFF' and rng.random() < 0.4 else 'sub')
+
+
+MATMODES = ['both', 'both', 'both', 'monly', 'monly', 'none', 'matonly', 'mat3d']
+
+
+def rand_end(rng, hdr):
+    """sometimes make the supplied header big-endian"""
+    if hdr is not None and hdr_src('', hdr) != 'MGH' and rng.random() < 0.2:
+        hdr['end'] = '>'
+    return hdr
+
+
+def pow2_zooms(rng):
+    return [float(2 ** rng.randrange(-4, 5)) for _ in range(3)]
+
+
+def foreign_header(rng, cls, shape, A):
+    """spec of a header made on ANOTHER class than the image's (`Klass(data, affine, other_img.header)`), holding an
+    affine equal / near / far relative to A as far as that class can; float-exact for the exact stream"""
+    fam = 'N' if cls in NIFTI else ('M' if cls == 'MGH' else 'A')
+    cands = [c for c in CLASSES if c != cls and (c != 'MGH' or len(shape) >= 3)]
+    # a NIfTI image most often gets the header of the other NIfTI flavour
+    if fam == 'N' and rng.random() < 0.6:
+        cands = [c for c in NIFTI if c != cls]
+    src = rng.choice(cands)
+    n = np.sqrt((A[:3, :3] ** 2).sum(axis=0))
+    if src in NIFTI:
+        rots = SP_AXIS if 'N2' in (src, cls) else SP_QRAT
+        if fam == 'N':
+            qc = rng.choice([0, 0, 1, 2, 5])
+            sc = rng.choice([0, 1, 2, 3, 4, 5])
+            if qc == 0 and sc == 0:
+                sc = 2
+            base = A if is_member(A, rots) else exact_affine(rng, rots)
+            qa = None if rng.random() < 0.3 else variant(rng, base, rots)[0]
+            if qa is not None and not is_member(qa, rots):
+                qa = exact_affine(rng, rots)
+            sa = variant(rng, A)[0]
+            h = {'q': [code_tok(rng, qc), None if qa is None else aff12_of(qa)], 's': [code_tok(rng, sc), aff12_of(sa)]}
+        else:
+            # only pixdim reaches an Analyze / SPM / MGH image: the column norms of the qform affine
+            qa = None if rng.random() < 0.2 else variant(rng, A if is_member(A, SP) else exact_affine(rng, SP), SP)[0]
+            if qa is not None and not is_member(qa, SP):
+                qa = exact_affine(rng, SP)
+            h = {'q': [rng.choice([0, 1, 2]), None if qa is None else aff12_of(qa)],
+                 's': [rng.choice([0, 2]), aff12_of(A) if rng.random() < 0.5 else None]}
+    elif src == 'MGH':
+        H = variant(rng, A if is_member(A, SP) else exact_affine(rng, SP), SP)[0]
+        if not is_member(H, SP):
+            H = exact_affine(rng, SP)
+        h = {'a': aff12_of(H)}
+    else:
+        zr = rng.random()
+        z = [float(v) for v in n] if zr < 0.5 else ([float(v * (1 + 2.0 ** -18)) for v in n] if zr < 0.7 else
+                                                    pow2_zooms(rng))
+        o = [0, 0, 0]
+        if src in SPM and rng.random() < 0.5:
+            o = [rng.randrange(1, 2 * (shape[k] if k < len(shape) else 1)) for k in range(3)]
+        h = {'z': z, 'o': o}
+    h['from'] = src
+    return h
+
+
+def near_header_affine(rng, cls, shape, hdr, fl='TTT'):
+    """an image affine equal / near / far relative to what the (converted) header says — the keep-header path"""
+    try:
+        Ki = flip_class(cls, fl[0] == 'T')
+        seen = Ki.header_class.from_header(build_header(cls, tuple(shape), hdr, Ki))
+        seen.set_data_shape(tuple(shape))
+        hb = np.array(seen.get_best_affine(), dtype=np.float64)
+    except Exception:
+        return None
+    return variant(rng, hb)[0]
 
 
 def exact_nifti_case(rng, cls):
@@ -954,7 +1159,20 @@ def exact_nifti_case(rng, cls):
                 and not is_member(qa, rots if qc != 0 else SP)
             if not exposes_q:
                 hdr['raw'] = {k: rv}
-    return mk_rt(cls, shape, aff12_of(A), hdr, 'both', 'exact-nifti')
+    if hdr is None and rng.random() < 0.12 or (hdr is not None and 'raw' not in hdr and rng.random() < 0.12):
+        # a header taken from an image of another class
+        A = exact_affine(rng, rots if rng.random() < 0.5 else None)
+        hdr = foreign_header(rng, cls, shape, A)
+        if hdr['from'] not in NIFTI and rng.random() < 0.6:
+            B = near_header_affine(rng, cls, shape, hdr)
+            A = A if B is None else B
+        return mk_rt(cls, shape, aff12_of(A), rand_end(rng, hdr), 'both', 'exact-xclass')
+    fl, how = 'TTT', 'sub'
+    if hdr is None or ('raw' not in hdr and all(std_code(t[0]) is not None for t in (hdr['q'], hdr['s']))
+                       and (std_code(hdr['q'][0]) or std_code(hdr['s'][0]))):
+        # default_x_flip only enters the shape/zoom fallback: with a coded sform / qform it must not matter
+        fl, how = rand_flips(rng, 0.15)
+    return mk_rt(cls, shape, aff12_of(A), rand_end(rng, hdr), 'both', 'exact-nifti', fl=fl, flhow=how)
 
 
 def is_member(A, rots):
@@ -975,10 +1193,17 @@ def exact_analyze_case(rng, cls):
     shape = rand_shape(rng, cls)
     mat = 'both'
     if cls in SPM:
-        mat = rng.choice(['both', 'both', 'both', 'monly', 'monly', 'none'])
+        mat = rng.choice(MATMODES)
+    fl, how = rand_flips(rng)
     A = exact_affine(rng, sheared=False)
     hdr = None
     r = rng.random()
+    if r > 0.85:
+        hdr = foreign_header(rng, cls, shape, A)
+        if rng.random() < 0.6:
+            B = near_header_affine(rng, cls, shape, hdr, fl)
+            A = A if B is None else B
+        return mk_rt(cls, shape, aff12_of(A), rand_end(rng, hdr), mat, 'exact-xclass', fl=fl, flhow=how)
     if r > 0.3:
         n = np.sqrt((A[:3, :3] ** 2).sum(axis=0))
         zr = rng.random()
@@ -993,22 +1218,29 @@ def exact_analyze_case(rng, cls):
                 o = [rng.randrange(-12, 20) for _ in range(3)]
         hdr = {'z': z, 'o': o}
         if rng.random() < 0.5:
-            # image affine equal / near / far relative to the header's own affine (keep-header path)
-            hb = np.array(build_header(cls, tuple(shape), hdr).get_best_affine(), dtype=np.float64)
+            # image affine equal / near / far relative to the header's own affine (keep-header path), under the
+            # flag in force at construction or at save
+            hh = build_header(cls, tuple(shape), hdr)
+            hh.default_x_flip = (fl[rng.randrange(2)] == 'T')
+            hb = np.array(hh.get_best_affine(), dtype=np.float64)
             A, _ = variant(rng, hb)
     elif r < 0.08:
-        hb = np.array(_nib()[cls].header_class().get_best_affine())  # not used: default header has no shape yet
         A = exact_affine(rng)
-    return mk_rt(cls, shape, aff12_of(A), hdr, mat, 'exact-analyze')
+    return mk_rt(cls, shape, aff12_of(A), rand_end(rng, hdr), mat, 'exact-analyze', fl=fl, flhow=how)
 
 
 def exact_mgh_case(rng):
     shape = rand_shape(rng, 'MGH')
     A = exact_affine(rng)
     hdr = None
-    if rng.random() < 0.6:
+    r = rng.random()
+    if r < 0.6:
         H, _ = variant(rng, A)
         hdr = {'a': aff12_of(H)}
+    elif r < 0.7:
+        # a header of another class is ignored by MGHHeader.from_header
+        hdr = foreign_header(rng, 'MGH', shape, A)
+        return mk_rt('MGH', shape, aff12_of(A), rand_end(rng, hdr), 'both', 'exact-xclass')
     return mk_rt('MGH', shape, aff12_of(A), hdr, 'both', 'exact-mgh')
 
 
@@ -1080,13 +1312,21 @@ def general_case(rng, cls):
         # a supplied header that already carries the affine in its sform under any valid code (number or
         # alias): the header is kept, so the code must come back from the file together with the affine
         hdr = {'q': [code_tok(rng, 0), None], 's': [code_tok(rng, rng.choice([1, 2, 3, 4, 5, 5])), aff12_of(A)]}
-        return mk_rt(cls, shape, aff12_of(A), hdr, 'both', 'general-sform-code', exact=False, line=True)
+        if rng.random() < 0.3:
+            # ... taken from an image of another NIfTI flavour (float64 <-> float32 fields)
+            hdr['from'] = rng.choice([c for c in NIFTI if c != cls])
+        fl, how = rand_flips(rng, 0.1)
+        return mk_rt(cls, shape, aff12_of(A), rand_end(rng, hdr), 'both', 'general-sform-code', exact=False, line=True,
+                     fl=fl, flhow=how)
     mat = 'both'
+    fl, how = 'TTT', 'sub'
     if cls in SPM:
-        mat = rng.choice(['both', 'both', 'monly', 'none'])
+        mat = rng.choice(MATMODES)
+    if cls in SPM or cls == 'AN' or cls in NIFTI:
+        fl, how = rand_flips(rng, 0.4 if cls not in NIFTI else 0.1)
     # the model has executable float32 rounding, so the sform path is compared bit for bit on general affines too
     line = cls in NIFTI
-    return mk_rt(cls, shape, aff12_of(A), None, mat, 'general', exact=False, line=line)
+    return mk_rt(cls, shape, aff12_of(A), None, mat, 'general', exact=False, line=line, fl=fl, flhow=how)
 
 
 def component_cases(rng, tier):
@@ -1189,8 +1429,9 @@ def cases(rng, tier):
             A = np.eye(4)
             A[:3, :3] = M * np.array([float(2 ** rng.randrange(-3, 4)) for _ in range(3)])
             A[:3, 3] = [dyadic(rng) for _ in range(3)]
-            mat = rng.choice(['both', 'monly']) if cls in SPM else 'both'
-            out.append(mk_rt(cls, rand_shape(rng, cls), aff12_of(A), None, mat, 'exact-perm'))
+            mat = rng.choice(['both', 'monly', 'matonly', 'mat3d']) if cls in SPM else 'both'
+            fl, how = rand_flips(rng, 0.5) if cls in SPM or cls == 'AN' else ('TTT', 'sub')
+            out.append(mk_rt(cls, rand_shape(rng, cls), aff12_of(A), None, mat, 'exact-perm', fl=fl, flhow=how))
     # every q-exact rotation x sform/qform code combination, header supplied, affine equal to the header's
     for cls in NIFTI:
         for M in q_exact_rots(cls):
@@ -1222,10 +1463,13 @@ def cases(rng, tier):
         shape = rand_shape(rng, cls)
         dh = _nib()[cls].header_class()
         dh.set_data_shape(tuple(shape))
+        fl, how = rand_flips(rng, 0.5) if cls in SPM or cls == 'AN' else ('TTT', 'sub')
+        if cls != 'MGH':
+            dh.default_x_flip = (fl[rng.randrange(2)] == 'T')
         D = np.array(dh.get_best_affine(), dtype=np.float64)
         A, _ = variant(rng, D)
-        mat = rng.choice(['both', 'monly', 'none']) if cls in SPM else 'both'
-        out.append(mk_rt(cls, shape, aff12_of(A), None, mat, 'exact-default'))
+        mat = rng.choice(MATMODES) if cls in SPM else 'both'
+        out.append(mk_rt(cls, shape, aff12_of(A), None, mat, 'exact-default', fl=fl, flhow=how))
     return out
 
 
